@@ -66,7 +66,7 @@ def zero_count_specs():
 
 
 def specs(tier: str):
-    return zero_count_specs() + families.c01_specs(tier, kmode="zero") + recursive_specs()
+    return zero_count_specs() + families.c01_specs(tier, kmode="zero", extra_trivia=("cm_nonatomic",)) + recursive_specs()
 
 
 def run(tier: str) -> int:
